@@ -86,7 +86,9 @@ type mscen struct {
 }
 
 // mval: the tagged value of position pos at call site `site` of module m (distinct for every (m, site, pos, role)).
-func mval(t byte, pos, m, site int, res bool) uint64 { return value(t, pos+13*m+4*site, nBoundary, res) }
+func mval(t byte, pos, m, site int, res bool) uint64 {
+	return value(t, pos+13*m+4*site, nBoundary, res)
+}
 
 func mvalues(ts []byte, m, site int, res bool) []uint64 {
 	o := make([]uint64, len(ts))
@@ -139,10 +141,11 @@ func (s mspec) scenarios() []mscen {
 				out = append(out, mscen{fmt.Sprintf("seq_idx%d_%s%s", j, wordName(w), sfx), "seq", sl, ind})
 				out = append(out, mscen{fmt.Sprintf("sel_idx%d_%s%s", j, wordName(w), sfx), "sel", sl, ind})
 				if s.Rot { // the same signature at shuffled indexes (control)
+					ss := make([]mslot, len(w))
 					for i, m := range w {
-						sl[i] = mslot{m, (j - m + 2*len(msigs)) % len(msigs)}
+						ss[i] = mslot{m, (j - m + 2*len(msigs)) % len(msigs)}
 					}
-					out = append(out, mscen{fmt.Sprintf("seq_sig%d_%s%s", j, wordName(w), sfx), "seq", append([]mslot{}, sl...), ind})
+					out = append(out, mscen{fmt.Sprintf("seq_sig%d_%s%s", j, wordName(w), sfx), "seq", ss, ind})
 				}
 			}
 			// callback: A.f_j calls back into the guest, which calls B.f_j; then the outer function calls B.f_j
